@@ -76,12 +76,17 @@ def children(i):
 
 
 def ancestor_at(i, r):
-    res = decode(i)[0]
+    res, T, dg = decode(i)
     assert -1 <= r <= res
-    while res > r:
-        i = parent(i)
-        res -= 1
-    return i
+    if r == res:
+        return i
+    if r == -1:
+        return 0
+    if r == 0:
+        return encode(0, T // 5, ())      # res >= 1 here
+    if r == 1:
+        return encode(1, T, ())
+    return encode(r, T, dg[: r - 1])
 
 
 def descendants_at(i, R):
